@@ -250,6 +250,19 @@ class FileM:
     def write(self, s):
         self.sink.append(s)
 
+    def writelines(self, lines):
+        for s in lines:         # = write() per item, no separators added
+            self.sink.append(s)
+
+    def flush(self):
+        pass
+
+    def close(self):
+        pass
+
+    def __exit__(self, *a):
+        pass
+
 
 class FSM:
     """model file system: which names exist, what was opened for writing"""
@@ -1544,5 +1557,27 @@ TWINS = list(TWINS) + [
       '            if not override:\n'
       '                raise OSError("File already exists: {}".format(path))\n'
       '            path.unlink()\n')),
+]
+
+
+TWINS = list(TWINS) + [
+    ("tsv: header written with writelines and inlined joins", EXP,
+     [("            cfg = self.rtdc_ds.config.as_dict()\n"
+       "            for sec in sorted(cfg.keys()):\n"
+       "                for key in sorted(cfg[sec].keys()):\n"
+       '                    fd.write(f"# dc:{sec}:{key} = '
+       '{cfg[sec][key]}\\n")\n',
+       "            cfg = ds.config.as_dict()\n"
+       "            for sec in sorted(cfg):\n"
+       "                section = cfg[sec]\n"
+       '                fd.writelines(f"# dc:{sec}:{key} = '
+       '{section[key]}\\n"\n'
+       "                              for key in sorted(section))\n"),
+      ('            header1 = "\\t".join([c for c in features])\n'
+       '            fd.write("# "+header1+"\\n")\n',
+       '            fd.write("# " + "\\t".join(features) + "\\n")\n'),
+      ('            header2 = "\\t".join(labels)\n'
+       '            fd.write("# "+header2+"\\n")\n',
+       '            fd.write("# " + "\\t".join(labels) + "\\n")\n')]),
 ]
 
